@@ -94,6 +94,29 @@ def run(task):
         labels = A.spec_label_set(spec)
         c = build_continuum(spec)
         enum = all_alignments(byann, cap)
+        # ---- call histories: ONE alignment object recomputed with every dissimilarity, forwards and backwards
+        #      (a value cached on the alignment under a too coarse key would be observed)
+        rl = recipes(labels, tier)
+        for nts in enum[:3]:
+            for attach in (True, False):
+                al = lib_alignment(pa, nts, c if attach else None)
+                for recipe in rl + rl[::-1][1:]:
+                    uds, tot = definition(nts, recipe, m, n)
+                    res["evaluations"] += 1
+                    res["transitions"] += 1
+                    res["traces"] += 1
+                    case = {"spec": spec, "recipe": recipe, "nts": nts, "attach": attach,
+                            "point": "Alignment.compute_disorder"}
+                    try:
+                        got = float(al.compute_disorder(A.DISSIMS.get(recipe)))
+                        stored = [float(ua.disorder) for ua in al.unitary_alignments]
+                    except Exception as e:  # noqa
+                        report(f"Alignment.compute_disorder raised on a re-used alignment object: {type(e).__name__}: {e}", case)
+                        break
+                    if not close(got, tot) or any(not close(x, y) for x, y in zip(stored, uds)):
+                        report(f"Alignment.compute_disorder on an alignment object already evaluated with other "
+                               f"dissimilarities: {got} / {stored} but the definition gives {tot} / {uds}", case)
+                        break
         for recipe in recipes(labels, tier):
             d = A.DISSIMS.get(recipe)
             # ---- library alignments: carried values
